@@ -4,6 +4,8 @@
 #include <stdio.h>
 #include <string.h>
 #include <stdlib.h>
+#include <ctype.h>
+#include <unistd.h>
 #include <algorithm>
 
 namespace sim {
@@ -122,6 +124,41 @@ std::vector<std::string> World::EffectiveTargets(const InvPlan& p) const {
   return r;
 }
 
+// What the real /bin/sh makes of `sim <args>`: the words, NUL separated.
+// Runs outside the simulation, memoised per distinct string (C16 side-oracle).
+static bool ShellWords(const std::string& args, std::vector<std::string>* words) {
+  static std::map<std::string, std::pair<bool, std::vector<std::string>>> memo;
+  auto m = memo.find(args);
+  if (m != memo.end()) { *words = m->second.second; return m->second.first; }
+  bool ok = false;
+  std::vector<std::string> v;
+  char path[64];
+  snprintf(path, sizeof path, "/tmp/simninja_sh_%d", (int)getpid());
+  FILE* f = fopen(path, "wb");
+  if (f) {
+    std::string script = "sim() { for a in \"$@\"; do printf '%s\\0' \"$a\"; done; }\n" + args + "\n";
+    fwrite(script.data(), 1, script.size(), f);
+    fclose(f);
+    std::string cmd = std::string("cd /var/empty 2>/dev/null || cd /; /bin/sh ") + path + " 2>/dev/null";
+    FILE* p = popen(cmd.c_str(), "r");
+    if (p) {
+      std::string out;
+      char buf[4096];
+      size_t n;
+      while ((n = fread(buf, 1, sizeof buf, p)) > 0) out.append(buf, n);
+      int st = pclose(p);
+      ok = st == 0;
+      size_t i = 0;
+      while (i < out.size()) { size_t z = out.find('\0', i); if (z == std::string::npos) z = out.size(); v.push_back(out.substr(i, z - i)); i = z + 1; }
+    }
+    remove(path);
+  }
+  if (memo.size() > 20000) memo.clear();
+  memo[args] = std::make_pair(ok, v);
+  *words = v;
+  return ok;
+}
+
 // ------------------------------------------------------------------ children
 ChildPlan World::OnSpawn(Kernel& kk, const std::string& cmd, bool console) {
   ChildPlan plan;
@@ -175,6 +212,42 @@ ChildPlan World::OnSpawn(Kernel& kk, const std::string& cmd, bool console) {
   if (cmd != sc.CommandLine(s)) {
     Report("C16", "word_mismatch", "command '" + cmd + "' differs from reference expansion '" + sc.CommandLine(s) + "'");
     Report("C04", "missing_dir_or_rspfile", "command line differs from the reference expansion");
+  }
+
+  // ---- C16 side-oracle: the real shell must see exactly the file names as words
+  if ((sc.features & F_HOSTILE_NAMES) && prof->name == "C16") {
+    std::vector<std::string> words, want;
+    char pre[64];
+    snprintf(pre, sizeof pre, "%d k%d c%d", s.id, s.key, s.cosmetic);
+    { std::string t = pre; size_t i = 0; while (i < t.size()) { size_t sp = t.find(' ', i); if (sp == std::string::npos) sp = t.size(); want.push_back(t.substr(i, sp - i)); i = sp + 1; } }
+    if (s.rsp) want.push_back("@" + s.rsp_path); else for (auto& p : s.ins) want.push_back(p);
+    want.push_back("-o");
+    for (auto& p : s.outs) want.push_back(p);
+    bool ok = ShellWords(cmd, &words);
+    stats->n["shell_word_checks"]++;
+    if (!ok || words != want) {
+      std::string got;
+      for (auto& x : words) got += "[" + x + "]";
+      Report("C16", "word_mismatch", "/bin/sh does not read the command of statement " + std::to_string(id) + " as the expected words; it sees " + got + " for: " + cmd);
+    }
+    if (s.rsp && s.rsp_kind != 2) {
+      std::string have;
+      if (kk.ReadFile(s.rsp_path, &have)) {
+        std::vector<std::string> rw;
+        // ($in_newline puts one escaped name per line; a tool reads it line by line)
+        std::string one_line = have;
+        for (char& ch : one_line) if (ch == '\n') ch = ' ';
+        bool ok2 = ShellWords("sim " + one_line, &rw);
+        if (!ok2 || rw != s.ins) {
+          std::string got;
+          for (auto& x : rw) got += "[" + x + "]";
+          Report("C16", "word_mismatch", "/bin/sh does not read the response file of statement " + std::to_string(id) + " as the input names: it sees " + got + " in '" + have + "'");
+        }
+      }
+    }
+    bool special = false;
+    for (auto& p : want) for (char ch : p) if (!isalnum((unsigned char)ch) && !strchr("_+-./@", ch)) special = true;
+    if (special) stats->nontrivial["C16"] = true;
   }
 
   // ---- C06: limits, at the instant the command starts
@@ -231,6 +304,17 @@ ChildPlan World::OnSpawn(Kernel& kk, const std::string& cmd, bool console) {
   if (s.deps_kind == 3) {
     std::string o;
     for (auto& h : hidden) o += "Note: including file: " + h + "\n";
+    if (r.plan.garbage_child_output) {
+      // compiler output parsed for /showIncludes can be anything
+      int nl = 1 + (int)tape->Choice(st_stream, 4);
+      for (int i = 0; i < nl; i++) {
+        static const char* kPre[] = {"Note: including file: ", "Note: including file:", "Note: including file:    ", "", "note: including file: ", "Note: including file: \r"};
+        o += kPre[tape->Choice(st_stream, 6)];
+        int len = (int)tape->Choice(st_stream, 40);
+        for (int j = 0; j < len; j++) o += (char)tape->Choice(st_stream, 256);
+        o += tape->Choice(st_stream, 3) == 0 ? "\r\n" : tape->Choice(st_stream, 2) ? "\n" : "";
+      }
+    }
     if (!o.empty()) { ChildStep c; c.kind = ChildStep::kOutput; c.at_ns = dur / 2; c.bytes = o; plan.steps.push_back(c); }
   } else if (prof->child_output) {
     nchunks = (int)tape->Choice(st_stream, 4);
@@ -398,8 +482,8 @@ InvRecord World::RunInvocation(const InvPlan& plan) {
   if (plan.keepdepfile) { a.push_back("-d"); a.push_back("keepdepfile"); }
   ProcSpec sp;
   const char* kFmt = "[%s/%f/%t/%r] ";
-  if (plan.status_mode == 1) sp.env["NINJA_STATUS"] = kFmt;
-  if (plan.status_mode == 2) { a.push_back("--status"); a.push_back("[$started/$finished/$total/$running] $description"); }
+  if (plan.status_mode == 1) sp.env["NINJA_STATUS"] = plan.status_fmt.empty() ? kFmt : plan.status_fmt.c_str();
+  if (plan.status_mode == 2) { a.push_back("--status"); a.push_back(plan.status_fmt.empty() ? "[$started/$finished/$total/$running] $description" : plan.status_fmt); }
   if (!plan.tool.empty()) { a.push_back("-t"); for (auto& t : plan.tool) a.push_back(t); }
   for (auto& t : plan.targets) a.push_back(t);
   sp.argv = a;
